@@ -438,7 +438,11 @@ func check(c Case) error {
 				vk.StaleFile(p, 40000)
 				codon.WriteCodonJSON(h.real, p)
 				res = codon.ReadCodonJSON(p)
+				// a second read of the same, unchanged file is another table of its own
+				again := codon.ReadCodonJSON(p)
 				_ = os.Remove(p)
+				ns2 := copyW(*h.store)
+				add(&handle{real: again, id: h.id, val: copyW(h.val), store: &ns2, letters: h.letters, starts: h.starts, stops: h.stops})
 			}
 			ns := copyW(*h.store)
 			add(&handle{real: res, id: h.id, val: copyW(h.val), store: &ns, letters: h.letters, starts: h.starts, stops: h.stops})
